@@ -102,6 +102,13 @@ func MakeRemoteSource(sourceType string, u *url.URL, subPath string) (RemoteSour
 }
 
 func makeRemoteSource(sourceType string, u *url.URL, subPath string) (RemoteSource, error) {
+	// Checked here, on the one route every remote source takes, so that it
+	// holds for addresses assembled from parts (MakeRemoteSource) as well as
+	// for parsed ones.
+	if u.User != nil {
+		return RemoteSource{}, fmt.Errorf("must not use username or password in URL portion")
+	}
+
 	typeImpl, ok := remoteSourceTypes[sourceType]
 	if !ok {
 		if sourceType == u.Scheme {
